@@ -8,7 +8,7 @@ import json, os, shutil, subprocess, sys, tempfile, time
 V = os.path.dirname(os.path.dirname(os.path.abspath(__file__)))
 args = [a for a in sys.argv[1:] if not a.startswith("--")]
 tier = "thorough" if "--tier=thorough" in sys.argv or "thorough" in sys.argv[1:] and "--tier" in sys.argv else "quick"
-seed, props = args[0], [a for a in args[1:] if a not in ("quick", "thorough")]
+seed, props = os.path.abspath(args[0]), [a for a in args[1:] if a not in ("quick", "thorough")]
 scratch = tempfile.mkdtemp(prefix="seedrun_", dir="/tmp")
 wt = os.path.join(scratch, "repo")
 out = os.path.join(scratch, "out")
